@@ -119,7 +119,7 @@ def build_args(cols, spelling="array2d"):
     return out
 
 
-def construct(cols, spelling="array2d", run=False):
+def construct(cols, spelling="array2d", run=False, args=None):
     from pybads import BADS
 
     n = [0]
@@ -131,7 +131,7 @@ def construct(cols, spelling="array2d", run=False):
         h.update(xx.tobytes())
         return float(np.sum((np.where(xx > 0, np.log10(np.maximum(xx, 1e-300)), xx) - 0.3) ** 2))
 
-    x0, lb, plb, pub, ub = build_args(cols, spelling)
+    x0, lb, plb, pub, ub = args if args is not None else build_args(cols, spelling)
     res = dict(got=None, attrs=None, digest=None, calls0=None)
     try:
         b = BADS(f, x0=x0, lower_bounds=lb, upper_bounds=ub, plausible_lower_bounds=plb, plausible_upper_bounds=pub,
@@ -312,6 +312,16 @@ def spelling_case(item):
             out.append(("spelling-defines-different-problem/%s/%s" % (sp, classify_valid(cols)), ([list(map(_j, c)) for c in cols], ref["attrs"], r["attrs"]), None))
         elif run and r["digest"] != ref["digest"]:
             out.append(("spelling-run-differs/%s" % sp, ([list(map(_j, c)) for c in cols], ref["digest"], r["digest"]), None))
+    # the caller re-uses the very same array objects for a second construction (multi-start loop): same problem again
+    for sp in ("array2d", "array1d"):
+        if sp == "array1d" and D == 1 and "array1d" not in SPELLINGS_1D:
+            continue
+        args = build_args(cols, sp)
+        r1 = construct(cols, sp, args=args)
+        r2 = construct(cols, sp, args=args)
+        n += 2
+        if r2["got"] != r1["got"] or r2["attrs"] != r1["attrs"] or r1["got"] != ref["got"]:
+            out.append(("same-arrays-second-construction-differs/%s/%s" % (sp, classify_valid(cols)), ([list(map(_j, c)) for c in cols], r1["got"], r2["got"], r2.get("msg")), None))
     return n, out
 
 
@@ -341,7 +351,18 @@ def run(ctx):
         cells1 = [[(x0, lb, plb, pub, ub)] for x0 in X0 for lb in V for plb in V for pub in V for ub in V]
     else:
         cells1 = [[c] for c in itertools.product(V, repeat=5)]
-    cells = cells1 + multi_cells(q)
+    # plausible intervals lying inside the 0.1% margin of a hard bound and ending exactly at (or one ulp around) the margin
+    mg = []
+    for lb_, ub_ in ((0.0, 1.0), (0.0, 1000.0), (-10.0, 10.0), (-2.0, 2.0), (1.0, 3.0)):
+        m_ = 1e-3 * (ub_ - lb_)
+        lo_e, hi_e = lb_ + m_, ub_ - m_
+        for e_ in (lo_e, float(np.nextafter(lo_e, ub_)), float(np.nextafter(lo_e, lb_))):
+            for x0_ in (NA, 0.5 * (lb_ + ub_)):
+                mg += [[(x0_, lb_, lb_, e_, ub_)], [(x0_, lb_, lb_ + 0.5 * m_, e_, ub_)]]
+        for e_ in (hi_e, float(np.nextafter(hi_e, ub_)), float(np.nextafter(hi_e, lb_))):
+            for x0_ in (NA, 0.5 * (lb_ + ub_)):
+                mg += [[(x0_, lb_, e_, ub_, ub_)], [(x0_, lb_, e_, ub_ - 0.5 * m_, ub_)]]
+    cells = cells1 + multi_cells(q) + mg
     B = 600
     blocks = [cells[i:i + B] for i in range(0, len(cells), B)]
     N = 0
